@@ -13,7 +13,7 @@ use super::rng::Rng;
 // Profiles: which workload / fault mix a run uses (swarm configuration)
 // ---------------------------------------------------------------------------
 
-pub const PROFILES: [&str; 19] = [
+pub const PROFILES: [&str; 20] = [
     "plain",      // fault-free payments, 1-3 hashes
     "faults",     // crashes, write faults, reorder, delayed replies, bad pay outcomes
     "crashy",     // many crashes around the pay call
@@ -21,6 +21,7 @@ pub const PROFILES: [&str; 19] = [
     "mpp",        // partial sets, stragglers, timeouts, rejecting HTLCs
     "restart",    // interrupted attempts, attempt ages around the timeout, clock jumps
     "isolation",  // two or three hashes, one frozen
+    "slowpath",   // several hashes whose pay commands end while parts are in flight
     "stallmany",  // several payments stalled at once (usually across a restart) + one that must progress
     "wire",       // chunking, back-pressure, logging, many concurrent requests
     "reads",      // failed reads (thorough tier of C02)
@@ -153,6 +154,25 @@ pub fn profile_cfg(profile: &str, content: &mut Rng) -> RunCfg {
             c.f_part_fail = 250;
             c.f_underfund = 150;
             c.f_rpc_reorder = 300;
+        }
+        "slowpath" => {
+            // Two or three hashes whose pay commands mostly end while parts are
+            // still in flight (error / pending / failed with warning), most
+            // parts failing: the wait-for-parts path is taken for several
+            // hashes in one process.
+            c.n_hashes = 2 + content.below(2) as usize;
+            c.max_sets = 6;
+            c.max_parts = 2;
+            c.f_pay_bad_outcome = 700;
+            c.f_part_fail = 650;
+            c.f_rpc_reorder = 300;
+            c.mpp_timeout = *content.pick(&[60u64, 600]);
+            c.policy_base = *content.pick(&[0u32, 1, 1000]);
+            c.policy_ppm = *content.pick(&[0u32, 5000]);
+            c.policy_delta = *content.pick(&[40u16, 144]);
+            c.cltv_delta = *content.pick(&[0u16, 18, 34]);
+            c.start_height = *content.pick(&[100u32, 800_000]);
+            c.no_self_hints = false;
         }
         "stallmany" => {
             // Many payments stalled at once (their parts never resolve),
@@ -994,10 +1014,11 @@ impl RandomSched {
         {
             let k = *self.rng.pick(&[1u32, 1, 1, 2, 6, 144]);
             let notify = if self.rng.permille(c.f_notify_drop) {
-                match self.rng.below(4) {
+                match self.rng.below(5) {
                     0 => NotifyMode::Drop,
                     1 => NotifyMode::Dup,
                     2 => NotifyMode::Malformed(self.rng.below(5) as u8),
+                    3 => NotifyMode::Burst(node.height.saturating_sub(self.rng.below(5) as u32)),
                     _ => NotifyMode::Stale(node.height.saturating_sub(self.rng.below(5) as u32)),
                 }
             } else {
